@@ -224,5 +224,23 @@ pub fn generate(thorough: bool, seed: u64, em: &mut Emitter) {
             "expect": e,
         });
         em.case("verify", case);
+        if i % 25 == 7 {
+            // the binding itself must not be selectively disclosable: with key binding required, a path to (or into)
+            // the cnf member the issuer adds addresses no claim of the caller; issuing has to fail, otherwise the
+            // holder could drop the key together with the key-binding JWT
+            let c0 = gen::gen_object(r, 2, 3, 1);
+            if c0.get("cnf").is_none() {
+                let m0 = gen::gen_marking(r, &c0, false);
+                let mut c = super::c01::issue_case(&c0, &m0, None, true, "HS256", 1);
+                let mut paths: Vec<String> = m0.iter().map(gen::render).collect();
+                let pos = r.below(paths.len() + 1);
+                paths.insert(pos, r.pick(&["/cnf", "/cnf/n", "/cnf/e"]).to_string());
+                c["paths"] = json!(paths);
+                c["expect_issue"] = json!("err");
+                c["tag"] = json!("cnf_path_with_key_binding");
+                c["nontrivial"] = json!(true);
+                em.case("issue", c);
+            }
+        }
     }
 }
